@@ -1003,8 +1003,60 @@ fn prog_case(idx: u64, rng: &mut Rng, out: &mut Out, seed: u64) {
     let _ = &r0.raw;
 }
 
+/// Finding F12 (directed reproduction; block and analysis by an independent code-reading sub-agent).
+/// Prague, guard on, NO delegation anywhere. A factory runs CREATE(init = "CREATE(0,0,0); REVERT"),
+/// then SELFDESTRUCT(address of the failed create). The guard's `load_account_delegated(target)` in
+/// front of the nested CREATE loads the account being created WITH code, turning `info.code` from
+/// None into Some(empty); the reverted create frame does not restore it; the SELFDESTRUCT funds the
+/// address without loading code, so it is committed as a new account with `code: Some(empty)` and the
+/// bundle gains `contracts[KECCAK_EMPTY]` - with the guard off, and in stock revm, it does not.
+fn f12() -> bool {
+    let factory = Address::from_word(B256::from(U256::from(920_000u64)));
+    let child = factory.create(1);
+    let sender = Address::from_word(B256::from(U256::from(0x7001u64)));
+    let miner = Address::new([0xc0; 20]);
+    let init: [u8; 7] = [0x5f, 0x5f, 0x5f, 0xf0, 0x5f, 0x5f, 0xfd];
+    let mut code = vec![0x66];
+    code.extend_from_slice(&init);
+    code.extend_from_slice(&[0x5f, 0x52, 0x60, 0x07, 0x60, 0x19, 0x5f, 0xf0, 0x50, 0x73]);
+    code.extend_from_slice(child.as_slice());
+    code.push(0xff);
+    let mut db = MemDb::default();
+    db.put_code(factory, U256::from(10u64).pow(U256::from(18)), 1, Bytecode::new_raw(code.into()));
+    db.put_eoa(sender, U256::from(10u64).pow(U256::from(18)), 0);
+    db.put_eoa(miner, U256::from(1), 0); // an existing fee recipient: a new one would itself add contracts[KECCAK_EMPTY]
+    let txs = vec![TxEnv { caller: sender, kind: TxKind::Call(factory), gas_limit: 1_000_000, gas_price: 1, nonce: 0, chain_id: Some(1), ..Default::default() }];
+    let cfg = CfgEnv::new_with_spec(SpecId::PRAGUE);
+    let block = BlockEnv { beneficiary: miner, number: U256::from(10), ..Default::default() };
+    let stock = {
+        let mut evm = gc::stock_evm(&db, &cfg, &block, revm::inspector::NoOpInspector {});
+        gc::block_result(&gc::run_stock_on(&mut evm, &txs, false, |_, _| {}).expect("stock revm"))
+    };
+    let (dba, txa) = (Arc::new(db.clone()), Arc::new(txs.clone()));
+    if std::env::var("F12_DEBUG").is_ok() {
+        println!("{:#?}", stock);
+    }
+    let mut reproduced = false;
+    for (label, safety) in [("guard-off", DelegatedSafetyConfig::disabled()), ("guard-on", DelegatedSafetyConfig { forbid_delegated_create: true, reserve_delegated_balance: false })] {
+        for workers in [0usize, 2] {
+            let g = gc::block_result(&gc::run_grevm(&dba, &cfg, &block, &txa, None, safety, workers).expect("grevm"));
+            let d = g.first_diff(&stock);
+            println!("F12 {label} workers={workers} differs_from_stock_revm={} {}", d.is_some() as u8, d.clone().unwrap_or_default().replace('\n', " "));
+            if label == "guard-off" && d.is_some() {
+                println!("F12-UNEXPECTED the guard-off run differs from stock revm");
+                std::process::exit(11);
+            }
+            reproduced |= label == "guard-on" && d.is_some();
+        }
+    }
+    reproduced
+}
+
 fn main() {
     let a: Vec<String> = std::env::args().collect();
+    if a[1] == "f12" {
+        std::process::exit(if f12() { 10 } else { 0 });
+    }
     let seed: u64 = a[1].parse().unwrap();
     let n_unit: u64 = a[2].parse().unwrap();
     let n_prog: u64 = a[3].parse().unwrap();
